@@ -96,6 +96,15 @@ func (x *Exec) mergeStates(anc *pcNode, states []*State) *State {
 		same := true
 		for i, s := range live {
 			t, has := s.heap[n]
+			if !has && n != "$alloc" && (s.hvAll || len(s.lazyRefs) > 0) {
+				// never touched on this path after a havoc: unknown there, not the entry version
+				for _, s2 := range live {
+					if t2, ok := s2.heap[n]; ok {
+						t, has = s.heapGet(n, x.eng.decl[t2]), true
+						break
+					}
+				}
+			}
 			if !has {
 				if n == "$alloc" {
 					t = x.eng.declare("alloc@0", sInt)
@@ -127,6 +136,22 @@ func (x *Exec) mergeStates(anc *pcNode, states []*State) *State {
 			m.pc = m.pc.push(mkImp(conds[i], mkEq(c, terms[i])))
 		}
 		m.heap[n] = c
+	}
+	for _, s := range live {
+		if s.hvAll {
+			m.hvAll = true
+		}
+		for _, r := range s.lazyRefs {
+			dup := false
+			for _, r2 := range m.lazyRefs {
+				if r2 == r {
+					dup = true
+				}
+			}
+			if !dup {
+				m.lazyRefs = append(m.lazyRefs[:len(m.lazyRefs):len(m.lazyRefs)], r)
+			}
+		}
 	}
 	// guarded-state snapshots: a path that never took the lock has the entry value
 	onames := map[string]bool{}
